@@ -174,7 +174,7 @@ func (m *Model) itemErrs(i int) []MErr {
 		}
 	case "struct":
 		d := m.StructDecl(it.Out)
-		if ot := resolveAlias(m.S, it.Out); d == nil || ot.K == "named" && len(ot.Args) > 0 {
+		if d == nil || it.Out.K == "named" && len(it.Out.Args) > 0 {
 			// wire.Struct wants new(NamedStruct); an instantiated generic type is not of that form
 			errs = append(errs, MErr{Class: "notstruct"})
 			return errs
